@@ -16,7 +16,7 @@ def run_one(name, patch, props):
             return name, "skipped (patch does not apply to the current tree)", {}
         out = {}
         for prop in props:
-            r = subprocess.run([os.path.join(ROOT, "bin/wsverif"), "-repo", d, "-verif", ROOT, "-no-evidence", "-prop", prop],
+            r = subprocess.run([os.environ.get("WSVERIF_BIN", os.path.join(ROOT, "bin/wsverif")), "-repo", d, "-verif", ROOT, "-no-evidence", "-prop", prop],
                                env=ENV, capture_output=True, text=True)
             rules = sorted(set(l.split("rule=")[1].split()[0] for l in r.stdout.splitlines() if "rule=" in l))
             rules = [x for x in rules if not x.endswith(".registered")]
